@@ -18,7 +18,7 @@ no copy-on-write):
   * stateCount  -1 when the predicate is false, else the length of the current run of true (points whose predicate
                fails to evaluate are dropped and do not interrupt the run);
   * stateDuration -1 when false, else (time - time of the first point of the current run) / unit;
-  * eval       results in order, later expressions see fields/tags first and earlier results otherwise; output fields by
+  * eval       results in order, later expressions see earlier results first, fields/tags otherwise; output fields by
                keep mode; listed results become tags; any error drops the point;
   * flatten    consecutive points of a group with the same (rounded) time form a bucket; a closed bucket becomes ONE point
                (group tags only) whose fields are `tagvalues ⋅ delimiter ⋅ fieldname` of every point that carries all `on`
@@ -175,14 +175,19 @@ def specStateDuration (e : Expr) (as : String) (unit : Int) : List Point → Lis
 
 /-! ## eval -/
 
-/-- The value a reference has when an expression is evaluated: field, else tag (both ⇒ error), else the latest earlier
-result of that name, else missing. -/
+def latest (results : List (String × Val)) (k : String) : Option Val := (results.reverse.find? (fun kv => kv.1 = k)).map (·.2)
+
+/-- The value a reference has when an expression is evaluated: the latest earlier result of that name ("the results of
+expressions are available to later expressions"), else the field, else the tag (both ⇒ error), else missing. -/
 def specEnv (fields : Fields) (tags : Tags) (results : List (String × Val)) (r : String) : Option Val :=
-  match aget fields r, aget tags r with
-  | some _, some _ => none
-  | some v, none => some v
-  | none, some t => some (.str t)
-  | none, none => some (((results.reverse.find? (fun kv => kv.1 = r)).map (·.2)).getD .missing)
+  match latest results r with
+  | some v => some v
+  | none =>
+    match aget fields r, aget tags r with
+    | some _, some _ => none
+    | some v, none => some v
+    | none, some t => some (.str t)
+    | none, none => some .missing
 
 /-- Evaluate the expressions in order; `none` = some expression failed. -/
 def specEvalResults (fields : Fields) (tags : Tags) : List Expr → List String → List (String × Val) → Option (List (String × Val))
@@ -195,8 +200,6 @@ def specEvalResults (fields : Fields) (tags : Tags) : List Expr → List String 
     match typeOf sc e, eval sc e with
     | some _, some v => specEvalResults fields tags es as (acc ++ [(a, v)])
     | _, _ => none
-
-def latest (results : List (String × Val)) (k : String) : Option Val := (results.reverse.find? (fun kv => kv.1 = k)).map (·.2)
 
 /-- The latest result of that name, if it is a string. -/
 def strResult (res : List (String × Val)) (t : String) : Option String :=
@@ -248,8 +251,8 @@ def specEvalFT (c : EvalCfg) (fields : Fields) (tags : Tags) : Option (Fields ×
 def specEval (c : EvalCfg) (ps : List Point) : List Point :=
   ps.filterMap (fun p => (specEvalFT c p.fields p.tags).map (fun r => { p with fields := r.1, tags := r.2 }))
 
-/-- The one documented-vs-actual difference of eval (recorded finding `eval-result-shadowed`): a result named like an
-existing field or tag is overwritten in the scope when a LATER expression references that name. -/
+/-- Where snapshot ef0888e deviated (repaired): a result named like an existing field or tag was overwritten in the scope
+when a LATER expression referenced that name. -/
 def evalShadowed (c : EvalCfg) (fields : Fields) (tags : Tags) : Bool :=
   let rec go : List Expr → List String → List String → Bool
     | [], _, _ => false
